@@ -87,11 +87,12 @@ type world struct {
 	an           *noderig.AccessNode
 	anDeliveries int
 	// what the access node's chain sync has delivered so far, for the model: events and the sets / keys by id
-	anEvents []string
-	anSets   []*obskeyperdatabase.KeyperSet
-	anKeys   []*shcrypto.EonPublicKey
-	ids      [][]byte
-	coeffs   string
+	anEvents  []string
+	announced map[string]bool
+	anSets    []*obskeyperdatabase.KeyperSet
+	anKeys    []*shcrypto.EonPublicKey
+	ids       [][]byte
+	coeffs    string
 }
 
 func newWorld(ctx context.Context, rnd *hx.Rand, fl noderig.Flavour, n, t, nids int) (*world, error) {
@@ -285,14 +286,17 @@ func (r *runner) run(ctx context.Context, w *world, p plan, pick func(n int) int
 				w.anDeliveries++
 				switch w.anDeliveries % 7 {
 				case 2:
-					w.announce(w.fx.ConfigIndex+1, w.fx.ActivationBlock+1000, false)
-					schedule = append(schedule, "accessnode: successor keyper set announced")
+					if w.announce(w.fx.ConfigIndex+1, w.fx.ActivationBlock+1000, false) {
+						schedule = append(schedule, "accessnode: successor keyper set announced")
+					}
 				case 4:
-					w.announce(w.fx.ConfigIndex+1, w.fx.ActivationBlock+1000, true)
-					schedule = append(schedule, "accessnode: successor keyper set and eon key announced")
+					if w.announce(w.fx.ConfigIndex+1, w.fx.ActivationBlock+1000, true) {
+						schedule = append(schedule, "accessnode: successor keyper set and eon key announced")
+					}
 				case 6:
-					w.announce(w.fx.ConfigIndex-1, 0, true)
-					schedule = append(schedule, "accessnode: preceding keyper set and eon key synced")
+					if w.announce(w.fx.ConfigIndex-1, 0, true) {
+						schedule = append(schedule, "accessnode: preceding keyper set and eon key synced")
+					}
 				}
 				// (the comparison with the model costs a dozen pairings: the first deliveries of a world, then every 40th)
 				if km, ok := d.msg.(*p2pmsg.DecryptionKeys); ok && rep == 0 && (w.anDeliveries <= 30 || w.anDeliveries%40 == 0) {
@@ -554,7 +558,16 @@ func (r *runner) exhaustive(ctx context.Context, w *world) {
 }
 
 // announce lets the access node's chain sync deliver another configuration and records it for the model.
-func (w *world) announce(index, activation uint64, withKey bool) {
+func (w *world) announce(index, activation uint64, withKey bool) bool {
+	// (each announcement once per world: the sync delivers an event once, and the lists below are walked per message)
+	if w.announced == nil {
+		w.announced = map[string]bool{}
+	}
+	k := fmt.Sprintf("%d/%v", index, withKey)
+	if w.announced[k] {
+		return false
+	}
+	w.announced[k] = true
 	set, key, err := w.an.AnnounceOther(w.fx, index, activation, withKey)
 	if err != nil {
 		panic(err)
@@ -565,6 +578,7 @@ func (w *world) announce(index, activation uint64, withKey bool) {
 		w.anKeys = append(w.anKeys, key)
 		w.anEvents = append(w.anEvents, fmt.Sprintf("k%d:%d", index, len(w.anKeys)-1))
 	}
+	return true
 }
 
 // accessNodeLines compares the access node with its model (Model/AccessNode.lean) on the keys message and on
